@@ -162,7 +162,9 @@ class MappingIsoparametric(Mapping):
             invDF = self.invDF(X, tind)
             dX = np.einsum('ijkl,jkl->ikl', invDF, x - F)
             X = np.clip(X + dX, 0., 1.)
-            if (np.linalg.norm(dX, 1, (0, 2)) < newton_tol).all():
+            # the largest update of any coordinate of any point; a sum over
+            # the points would grow with their number (rounding errors)
+            if (np.abs(dX).max(axis=(0, 2)) < newton_tol).all():
                 return X
         raise Exception(("Newton iteration didn't converge "
                          "up to TOL={}".format(newton_tol)))
